@@ -82,7 +82,7 @@ impl Drop for Sys {
 impl Sys {
     fn new(uni: std::sync::Arc<Uni>, capacity: usize, api_max: usize, prefill: &[usize]) -> Sys {
         let scratch = fresh_scratch("c10");
-        let mut rig = StoreRig::new(&scratch, RigCfg { max_records: capacity, cache_size: 25 }, rigs::fixtures::peer_id(1));
+        let mut rig = StoreRig::new(&scratch, RigCfg { max_records: capacity, cache_size: 25, max_value_bytes: None }, rigs::fixtures::peer_id(1));
         rig.settle();
         let mut s = Sys { rig: Some(rig), uni, capacity, unacked: vec![0; NKEYS], range_gap: None, payments: 0, payments_known: true, burst: false, unclean_restart: false, api_used: 0, api_max, scratch };
         for k in prefill {
@@ -341,7 +341,7 @@ fn cleanup_threshold(run: &Run) {
                             continue;
                         }
                         let scratch = fresh_scratch("c10-bulk");
-                        let mut rig = StoreRig::new(&scratch, RigCfg { max_records: 16 * 1024, cache_size: 25 }, peer);
+                        let mut rig = StoreRig::new(&scratch, RigCfg { max_records: 16 * 1024, cache_size: 25, max_value_bytes: None }, peer);
                         for k in all.iter().take(n) {
                             rig.put(k, &[&[0x91u8, 1][..], b"bulk"].concat()).expect("bulk put");
                         }
@@ -402,7 +402,7 @@ fn admission_after_cleanup(run: &Run) {
     let r = ranked_keys(peer, 2 * N + 8, "c10-admission");
     let dist = |k: &RecordKey| u256(&xor_distance(&me, k.as_ref()));
     let scratch = fresh_scratch("c10-adm");
-    let mut rig = StoreRig::new(&scratch, RigCfg { max_records: N, cache_size: 25 }, peer);
+    let mut rig = StoreRig::new(&scratch, RigCfg { max_records: N, cache_size: 25, max_value_bytes: None }, peer);
     let val = [&[0x91u8, 1][..], b"adm"].concat();
     // prefill: the even-ranked near keys, then a contiguous block of far keys
     let mut prefill: Vec<RecordKey> = (0..gap).map(|j| r[2 * j].clone()).collect();
